@@ -21,6 +21,7 @@ macro_rules! dispatch {
             "C16" => fw::$f::<props::c16::C16>($($arg),*),
             "C17" => fw::$f::<props::c17::C17>($($arg),*),
             "C18" => fw::$f::<props::c18::C18>($($arg),*),
+            "C19" => fw::$f::<props::c19::C19>($($arg),*),
             other => {
                 eprintln!("unknown property {other}");
                 2
